@@ -178,6 +178,8 @@ type World struct {
 	NoMimicReader bool
 
 	Panics []string
+	// Lost lists frames the (virtual) link writer could not send.
+	Lost []string
 }
 
 // NewWorld returns an empty world.
@@ -237,11 +239,16 @@ func (l *VLink) SendPriority(f frame.Frame) error { return l.send(f, true) }
 func (l *VLink) Send(f frame.Frame) error { return l.send(f, false) }
 
 func (l *VLink) send(f frame.Frame, prio bool) error {
-	// What the real link writer does: serialise, then release the frame.
-	raw, err := f.FrameDataWithMargins(0, 0)
+	// What the real link writer does: take the frame with the link-frame margins
+	// (it fails - and the frame is lost - when the buffer has no room for them),
+	// serialise, then release the frame.
+	withMargins, err := f.FrameDataWithMargins(peering.FrameOffset, peering.FrameOverhead)
 	if err != nil {
-		return err
+		l.owner.W.noteLost(fmt.Sprintf("%s -> %s: %v", l.owner.Name, l.peer.Name, err))
+		f.ReturnToPool()
+		return nil // the real Send only enqueues; the writer worker logs the error
 	}
+	raw := withMargins[peering.FrameOffset : len(withMargins)-peering.FrameOverhead]
 	data := append([]byte(nil), raw...)
 	f.ReturnToPool()
 	w := l.owner.W
@@ -469,6 +476,12 @@ func (n *Node) runRouterWorkerNamed(f frame.Frame, name string) error {
 	case <-time.After(30 * time.Second):
 		return errors.New("router worker stalled")
 	}
+}
+
+func (w *World) noteLost(s string) {
+	w.mu.Lock()
+	w.Lost = append(w.Lost, s)
+	w.mu.Unlock()
 }
 
 func (w *World) notePanic(s string) {
